@@ -7,6 +7,7 @@ import (
 	"fmt"
 	"sort"
 	"sync"
+	"sync/atomic"
 	"testing"
 	"time"
 
@@ -26,7 +27,7 @@ const c15CheckRetry = "c15-retry-queue"
 
 type c15rEmit struct {
 	AtMs int    `json:"at_ms"` // -1: before Connect is called
-	Kind string `json:"kind"`  // plain | ack | volatile
+	Kind string `json:"kind"`  // plain | ack | volatile | unacked (an event the server never acknowledges: given up after Retries + 1 timeouts; its ack function then emits again)
 }
 
 type c15rCase struct {
@@ -72,6 +73,11 @@ func evalC15Retry(c c15rCase) (f *Failure, nontrivial bool) {
 				mu.Unlock()
 				ack(tok)
 			})
+			s.OnEvent("n", func(tok int) { // never acknowledged
+				mu.Lock()
+				received = append(received, tok)
+				mu.Unlock()
+			})
 			if c.ConnectMs > 0 {
 				time.Sleep(time.Duration(c.ConnectMs) * time.Millisecond)
 			}
@@ -112,6 +118,18 @@ func evalC15Retry(c c15rCase) (f *Failure, nontrivial bool) {
 					acks[tok] = append(acks[tok], ackRec{err, back})
 					mu.Unlock()
 				})
+			case "unacked":
+				cli.Emit("n", tok, func(err error, back int) {
+					mu.Lock()
+					acks[tok] = append(acks[tok], ackRec{err, back})
+					mu.Unlock()
+					// the application reacts to the failure by telling the server something else, on the same socket
+					cli.Emit("e", 1000+tok, func(err error, back int) {
+						mu.Lock()
+						acks[1000+tok] = append(acks[1000+tok], ackRec{err, back})
+						mu.Unlock()
+					})
+				})
 			}
 		}
 		type action struct {
@@ -139,8 +157,19 @@ func evalC15Retry(c c15rCase) (f *Failure, nontrivial bool) {
 			a.fn()
 		}
 		// everything that is owed can be delivered without a single retry; leave room for a few anyway
-		time.Sleep(time.Duration(c.ConnectMs+c.AckTimeoutMs*(c.Retries+2)+3000) * time.Millisecond)
+		time.Sleep(time.Duration(c.ConnectMs+c.AckTimeoutMs*(c.Retries+3)+4000) * time.Millisecond)
 		settle(0)
+		// one more emit, on a goroutine of its own: an Emit that never returns (the queue's mutex left held) is reported, not waited for
+		var probeReturned atomic.Bool
+		go func() { cli.Emit("e", 9999); probeReturned.Store(true) }()
+		for i := 0; i < 200 && !probeReturned.Load(); i++ {
+			time.Sleep(100 * time.Millisecond) // up to 20 s, virtual or real
+		}
+		if !probeReturned.Load() {
+			res = fail("emit-returns", "an Emit on the socket made after everything else has not returned 20 s later")
+			return
+		}
+		settle(time.Second)
 		mu.Lock()
 		defer mu.Unlock()
 		if !cli.Connected() {
@@ -150,7 +179,7 @@ func evalC15Retry(c c15rCase) (f *Failure, nontrivial bool) {
 		count := map[int]int{}
 		var firsts []int
 		for _, tok := range received {
-			if count[tok] == 0 && c.Emits[tok-1].Kind != "volatile" {
+			if tok < 1000 && count[tok] == 0 && c.Emits[tok-1].Kind != "volatile" {
 				firsts = append(firsts, tok)
 			}
 			count[tok]++
@@ -168,6 +197,19 @@ func evalC15Retry(c c15rCase) (f *Failure, nontrivial bool) {
 				}
 				if count[tok] > 1 {
 					res = fail("exactly-once", fmt.Sprintf("%s reached the server %d times", desc, count[tok]))
+					return
+				}
+				continue
+			}
+			if e.Kind == "unacked" {
+				// sent Retries + 1 times (at-least-once is the contract of Retries), then given up: the ack function hears about it once, and
+				// what it emits in reaction is delivered like anything else
+				if len(acks[tok]) != 1 || acks[tok][0].err == nil {
+					res = fail("ack-callback-once", fmt.Sprintf("%s is never acknowledged (Retries %d, AckTimeout %d ms): its ack function ran with %v, want one call with an error (server received %v)", desc, c.Retries, c.AckTimeoutMs, acks[tok], received))
+					return
+				}
+				if count[1000+tok] != 1 || len(acks[1000+tok]) != 1 || acks[1000+tok][0].err != nil {
+					res = fail("offline-emit-delivered-once", fmt.Sprintf("%s: the event emitted from its ack function reached the server %d times, its own ack function ran with %v", desc, count[1000+tok], acks[1000+tok]))
 					return
 				}
 				continue
@@ -236,6 +278,11 @@ func genC15Retry(t *rapid.T) c15rCase {
 			e.AtMs = c.DownAtMs + 60
 		}
 		c.Emits = append(c.Emits, e)
+	}
+	// (without an outage only: an event that is never acknowledged holds the queue up for seconds, so that what is in flight when a link goes
+	// down can no longer be told from the case - and that is legitimately sent again)
+	if c.DownAtMs < 0 && rapid.IntRange(0, 1).Draw(t, "unacked") == 0 {
+		c.Emits[rapid.IntRange(0, len(c.Emits)-1).Draw(t, "which")].Kind = "unacked"
 	}
 	return c
 }
